@@ -52,14 +52,14 @@ func (cp *choicePoint) after(j int) (int, int) {
 type pathEndKind int
 
 const (
-	peDone pathEndKind = iota
-	peInfeasible          // an assumption made the path infeasible
-	peUnsupported         // the engine cannot model something on this path
-	peBudget              // step / depth budget exceeded (unwinding assertion)
-	peInconclusive        // solver unknown/timeout/error
-	pePanic               // target panic escaped the harness
-	peExit                // os.Exit / logrus.Fatal reached outside nd.Recovered
-	peSkipped             // subtree owned by another shard
+	peDone         pathEndKind = iota
+	peInfeasible               // an assumption made the path infeasible
+	peUnsupported              // the engine cannot model something on this path
+	peBudget                   // step / depth budget exceeded (unwinding assertion)
+	peInconclusive             // solver unknown/timeout/error
+	pePanic                    // target panic escaped the harness
+	peExit                     // os.Exit / logrus.Fatal reached outside nd.Recovered
+	peSkipped                  // subtree owned by another shard
 )
 
 var peNames = [...]string{"done", "infeasible", "unsupported", "budget", "inconclusive", "panic", "exit", "skipped"}
@@ -93,24 +93,24 @@ type Explorer struct {
 	startDepth int // solver depth at the beginning of the run
 	firstRun   bool
 
-	model      map[string]uint64 // last model known to satisfy all asserted constraints
-	modelOK    bool
-	pcTerms    []*Term // constraints of the current run in order (for reporting)
-	facts      map[*Term]bool    // literals implied by the path condition (syntactic)
-	eqConst    map[*Term]uint64  // term == constant on this path
-	neqConst   map[*Term]map[uint64]bool
-	FactHits   int
-	fixed      map[string]int64 // nd variables pinned by -fix
+	model                      map[string]uint64 // last model known to satisfy all asserted constraints
+	modelOK                    bool
+	pcTerms                    []*Term          // constraints of the current run in order (for reporting)
+	facts                      map[*Term]bool   // literals implied by the path condition (syntactic)
+	eqConst                    map[*Term]uint64 // term == constant on this path
+	neqConst                   map[*Term]map[uint64]bool
+	FactHits                   int
+	fixed                      map[string]int64 // nd variables pinned by -fix
 	shardW, shardN, shardDepth int
-	curW, curN                 int // sharding state at the current point of the run
-	ndvars     []ndVar // nd variables created in the current run
-	ndseen     map[string]int
+	curW, curN                 int     // sharding state at the current point of the run
+	ndvars                     []ndVar // nd variables created in the current run
+	ndseen                     map[string]int
 
-	steps      int64
-	maxSteps   int64
-	depth      int
-	maxDepth   int
-	queryCap   time.Duration
+	steps    int64
+	maxSteps int64
+	depth    int
+	maxDepth int
+	queryCap time.Duration
 
 	// results
 	Paths        int
